@@ -250,7 +250,7 @@ def eval_C01(doc):
         states, idx = o.ret
         # start-set attribution
         if ideal_set != obs_set:
-            missing = [(x[1], x[2]) for x in ideal_set - obs_set if x[0] == "e"]
+            missing = sorted([(x[1], x[2]) for x in ideal_set - obs_set if x[0] == "e"], key=repr)
             extra = obs_set - ideal_set
             if extra or len(missing) != len(ideal_set - obs_set) or not oa.d6_signature(ctx, s, missing):
                 vs.append(oa.V("C01/start-set-wrong", "ideal-observed=%r observed-ideal=%r" % (
@@ -715,6 +715,20 @@ def eval_C15(doc):
     a = run_session(d1)
     b = run_session(d2)
     oa_, ob = a.outcomes[-1], b.outcomes[-1]
+    if not d1["cfg"].get("only_edges", True):
+        # node-and-edge mode discards an edge state whose relative position is (nearly) 0 or 1; the
+        # geodesic projection is only accurate to ~0.2 m along the edge, so a projection that falls
+        # within half a metre of an end point is a threshold decision (fragility guard, DESIGN section 4)
+        st = RefStore.from_world(d1["world"])
+        for ea_, eb_ in st.edges():
+            pa, pb = st.loc[ea_], st.loc[eb_]
+            l2 = (pa[0] - pb[0]) ** 2 + (pa[1] - pb[1]) ** 2
+            if l2 == 0:
+                continue
+            for p in d1["trace"]:
+                u = ((p[0] - pa[0]) * (pb[0] - pa[0]) + (p[1] - pa[1]) * (pb[1] - pa[1])) / l2
+                if min(abs(u), abs(u - 1.0)) * math.sqrt(l2) < 0.5:
+                    return result(vs, doc, a, stats={"fragile": 1})
     if ob.exc is not None and oa_.exc is None:
         vs.append(oa.V("C15/latlon-raises/%s" % type(ob.exc).__name__, "%s" % (ob.exc,), ob))
         return result(vs, doc, a, stats=stats)
